@@ -303,8 +303,8 @@ func (env *specEnv) index(x, i specVal, e *Expr) specVal {
 	}
 	switch u := t.Underlying().(type) {
 	case *types.Slice:
-		comp := vc.S.arrComp(u.Elem())
-		return vc.sv(sel(sel(env.heap(comp), "(s_arr "+x.T+")"), "(+ (s_off "+x.T+") "+i.T+")"), u.Elem())
+		comp := vc.S.arrComp(t)
+		return vc.sv(sel(sel(env.heap(comp), "(s_arr "+x.T+")"), "(ix (s_off "+x.T+") "+i.T+")"), u.Elem())
 	case *types.Array:
 		return vc.sv(sel(x.T, i.T), u.Elem())
 	case *types.Map:
@@ -346,6 +346,20 @@ func (env *specEnv) resolveType(name string) types.Type {
 	}
 	if strings.HasPrefix(name, "[]") {
 		return types.NewSlice(env.resolveType(name[2:]))
+	}
+	if strings.HasPrefix(name, "map[") {
+		depth := 0
+		for i := 3; i < len(name); i++ {
+			switch name[i] {
+			case '[':
+				depth++
+			case ']':
+				depth--
+				if depth == 0 {
+					return types.NewMap(env.resolveType(name[4:i]), env.resolveType(name[i+1:]))
+				}
+			}
+		}
 	}
 	if i := strings.LastIndex(name, "."); i >= 0 {
 		pn, tn := name[:i], name[i+1:]
@@ -653,7 +667,10 @@ func (env *specEnv) call(e *Expr) specVal {
 			if x.Sort != "Slice" {
 				sfail("bview of non-slice")
 			}
-			comp := vc.S.arrComp(types.Typ[types.Byte])
+			if x.Typ == nil || !isByteSlice(x.Typ) {
+				sfail("bview of a value that is not a byte slice")
+			}
+			comp := vc.S.arrComp(x.Typ)
 			return ghost(fmt.Sprintf("(bview (select %s (s_arr %s)) (s_off %s) (s_len %s))", env.heap(comp), x.T, x.T, x.T), "Bytes")
 		case "has":
 			m, k := env.tr(args[0]), env.tr(args[1])
@@ -669,6 +686,14 @@ func (env *specEnv) call(e *Expr) specVal {
 		case "in64":
 			x := env.tr(args[0])
 			return ghost("(and (<= (- 9223372036854775808) "+x.T+") (<= "+x.T+" 9223372036854775807))", "Bool")
+		case "inner":
+			// the backing array of a slice in the current heap, as a ghost value
+			x := env.tr(args[0])
+			if x.Sort != "Slice" || x.Typ == nil {
+				sfail("inner of non-slice")
+			}
+			comp := vc.S.arrComp(x.Typ)
+			return ghost(sel(env.heap(comp), "(s_arr "+x.T+")"), "(Array Int "+comp.VSort+")")
 		case "bytes_of_str":
 			x := env.tr(args[0])
 			if x.Sort != "Str" {
